@@ -405,3 +405,9 @@ Proof.
     destruct (skip_ws s) as [|c v]; [discriminate|]. destruct (scan (c :: v)); discriminate.
   - destruct (rawjson_error_sticky_from_start _ _ _ _ _ E) as [_ [-> _]]. apply FrameMore.suffix_refl.
 Qed.
+
+Example rawjson_rest_is_suffix_nonvacuous :
+  rest_of (recv None [32; 91; 93; 49]) = Some [49] /\
+  rest_of (recv None [32; 93; 49]) = Some [32; 93; 49] /\
+  rest_of (recv (Some EEOF) [49]) = Some [49].
+Proof. vm_compute. auto. Qed.
